@@ -853,6 +853,49 @@ func (fi *fileInstr) sharedCapable(e ast.Expr) bool {
 	return false
 }
 
+// pkgRooted: the path e starts at a package-level variable of this module (state
+// that every goroutine of the process shares by construction).
+func (fi *fileInstr) pkgRooted(e ast.Expr) bool {
+	info := fi.pkg.TypesInfo
+	for {
+		switch x := e.(type) {
+		case *ast.ParenExpr:
+			e = x.X
+		case *ast.StarExpr:
+			e = x.X
+		case *ast.IndexExpr:
+			e = x.X
+		case *ast.SelectorExpr:
+			if id, ok := x.X.(*ast.Ident); ok {
+				if _, isPkg := info.Uses[id].(*types.PkgName); isPkg {
+					v, _ := info.Uses[x.Sel].(*types.Var)
+					return v != nil && fi.sharedVar(v)
+				}
+			}
+			e = x.X
+		case *ast.Ident:
+			v := fi.varOf(x)
+			return v != nil && !v.IsField() && v.Pkg() != nil && v.Parent() == v.Pkg().Scope() && fi.sharedVar(v)
+		default:
+			return false
+		}
+	}
+}
+
+// wfn picks the write-record function: the P variants additionally tell the runtime
+// that the location is rooted at package-level state.
+func (fi *fileInstr) wfn(e ast.Expr, mapWrite bool) string {
+	switch {
+	case mapWrite && fi.pkgRooted(e):
+		return "simrt.WMP"
+	case mapWrite:
+		return "simrt.WM"
+	case fi.pkgRooted(e):
+		return "simrt.WP"
+	}
+	return "simrt.W"
+}
+
 func (fi *fileInstr) addressable(e ast.Expr) bool {
 	tv, ok := fi.pkg.TypesInfo.Types[e]
 	return ok && tv.Addressable()
@@ -981,7 +1024,7 @@ func (fi *fileInstr) callAccesses(call *ast.CallExpr, r *recSet) {
 			case "delete", "clear":
 				if len(call.Args) > 0 && fi.isMap(call.Args[0]) && fi.pure(call.Args[0]) {
 					t := fi.text(call.Args[0])
-					r.add("wm", call, "simrt.WM(%d, "+t+")", t)
+					r.add("wm", call, fi.wfn(call.Args[0], true)+"(%d, "+t+")", t)
 				}
 			case "copy":
 				if len(call.Args) == 2 && fi.pure(call.Args[0]) {
@@ -1085,14 +1128,14 @@ func (fi *fileInstr) write(e ast.Expr, r *recSet) {
 			return
 		}
 		if fi.sharedVar(fi.varOf(x)) {
-			r.add("w", x, "simrt.W(%d, &"+x.Name+")", x.Name)
+			r.add("w", x, fi.wfn(x, false)+"(%d, &"+x.Name+")", x.Name)
 		}
 	case *ast.SelectorExpr:
 		if id, ok := x.X.(*ast.Ident); ok {
 			if _, isPkg := info.Uses[id].(*types.PkgName); isPkg {
 				if v, ok := info.Uses[x.Sel].(*types.Var); ok && fi.sharedVar(v) {
 					t := fi.text(x)
-					r.add("w", x, "simrt.W(%d, &"+t+")", t)
+					r.add("w", x, fi.wfn(x, false)+"(%d, &"+t+")", t)
 				}
 				return
 			}
@@ -1100,7 +1143,7 @@ func (fi *fileInstr) write(e ast.Expr, r *recSet) {
 		if fi.pure(x) && fi.addressable(x) {
 			if fi.sharedCapable(x) {
 				t := fi.text(x)
-				r.add("w", x, "simrt.W(%d, &"+t+")", t)
+				r.add("w", x, fi.wfn(x, false)+"(%d, &"+t+")", t)
 			}
 		} else {
 			report.UnrecordedLHS++
@@ -1110,14 +1153,14 @@ func (fi *fileInstr) write(e ast.Expr, r *recSet) {
 		if fi.isMap(x.X) {
 			if fi.pure(x.X) {
 				t := fi.text(x.X)
-				r.add("wm", x, "simrt.WM(%d, "+t+")", t)
+				r.add("wm", x, fi.wfn(x.X, true)+"(%d, "+t+")", t)
 			} else {
 				report.UnrecordedLHS++
 			}
 		} else if fi.pure(x) && fi.addressable(x) {
 			if fi.sharedCapable(x) {
 				t := fi.text(x)
-				r.add("w", x, "simrt.W(%d, &"+t+")", t)
+				r.add("w", x, fi.wfn(x, false)+"(%d, &"+t+")", t)
 			}
 		} else {
 			report.UnrecordedLHS++
@@ -1127,7 +1170,7 @@ func (fi *fileInstr) write(e ast.Expr, r *recSet) {
 	case *ast.StarExpr:
 		if fi.pure(x.X) {
 			t := fi.text(x.X)
-			r.add("w", x, "simrt.W(%d, "+t+")", "*"+t)
+			r.add("w", x, fi.wfn(x, false)+"(%d, "+t+")", "*"+t)
 		} else {
 			report.UnrecordedLHS++
 		}
